@@ -1209,11 +1209,68 @@ Print Assumptions loopir_LEVINSON_real.
 """
 
 
+# ---------------------------------------------------------------- CORRELATION: translation + theorem
+COR_PROOF = 'Proofs/LoopIRCorrelation.v'
+COR_THEOREMS = ['loopir_CORRELATION_model', 'loopir_CORRELATION_tie']
+COR_BLOCK = """
+(* The program regenerated on this run is, term for term, the one Proofs/LoopIRCorrelation.v is about: its theorems apply. *)
+Require Import Spectrum.Theory.Ops Spectrum.Theory.Vec Spectrum.Model.Corr Spectrum.Model.LoopIRTie Spectrum.Proofs.LoopIRCorrelation.
+Lemma prog_CORRELATION_is_ref : prog_CORRELATION = prog_CORRELATION_ref.
+Proof. reflexivity. Qed.
+(* for ALL arguments the tie passes (x, y omitted or given, any lengths incl. empty, maxlags omitted or ANY integer, norm omitted /
+   None / any string, any oracle values for the two pylab_rms_flat calls, both dtype tags; a float-tagged second array real-valued):
+   the run returns / raises exactly what the hand-written model says *)
+Theorem loopir_CORRELATION_model :
+  forall (F : Type) (OF : Ops F) (L : Laws OF) (feq : F -> F -> bool) (stop : Z -> F -> F -> bool)
+         (rx : bool) (x : list F) (y : option (bool * list F)) (maxlags : option Z) (nm : option (option string)) (rmsx rmsy : F),
+  let ry := match y with None => rx | Some q => fst q end in
+  let yl := match y with None => x | Some q => snd q end in
+  let N := Nat.max (length x) (length yl) in
+  let ml := match maxlags with Some m => m | None => (Z.of_nat N - 1)%Z end in
+  (rx && ry = true -> forall j, conj (nthF yl j) = nthF yl j) ->
+  run feq stop prog_CORRELATION
+      [Some (VArr rx x); option_map (fun q => VArr (fst q) (snd q)) y; option_map VI maxlags;
+       option_map (fun s => match s with None => VNone | Some t => VStr t end) nm; Some (VF rmsx); Some (VF rmsy)] =
+  match norm_of nm with
+  | None => OErr AssertionError
+  | Some cn =>
+      if (ml <? 0)%Z then OErr ValueError
+      else match correlation (rmsx * rmsy)%F x yl (Z.to_nat ml) cn with
+           | Some r => ORet [VArr (rx && ry) r]
+           | None => OErr AssertionError
+           end
+  end.
+Proof. intros. rewrite prog_CORRELATION_is_ref. apply (correlation_ir feq stop rx x y maxlags nm rmsx rmsy). assumption. Qed.
+(* hence the boolean of the exact evaluation tie is true on its whole domain, for every reflexive equality test *)
+Theorem loopir_CORRELATION_tie :
+  forall (F : Type) (OF : Ops F) (L : Laws OF) (feq : F -> F -> bool), (forall a, feq a a = true) ->
+  forall (rx : bool) (x : list F) (y : option (bool * list F)) (maxlags : option nat) (nm : option (option string)) (rmsx rmsy : F),
+  let ry := match y with None => rx | Some q => fst q end in
+  let yl := match y with None => x | Some q => snd q end in
+  (rx && ry = true -> forall j, conj (nthF yl j) = nthF yl j) ->
+  (maxlags = None -> (0 < Nat.max (length x) (length yl))%nat) ->
+  tie_correlation feq prog_CORRELATION rx x y maxlags nm rmsx rmsy = true.
+Proof. intros. rewrite prog_CORRELATION_is_ref. apply correlation_ir_tie; assumption. Qed.
+Print Assumptions loopir_CORRELATION_model.
+Print Assumptions loopir_CORRELATION_tie.
+"""
+
+# routine -> the proof file its reference program text lives in, the theorems the generated file instantiates, the block that does it
+THEOREMS = {
+    'LEVINSON': dict(proof=LEV_PROOF, theorems=LEV_THEOREMS, block=LEV_BLOCK),
+    'CORRELATION': dict(proof=COR_PROOF, theorems=COR_THEOREMS, block=COR_BLOCK),
+}
+
+
+def reference_text(name):
+    """the program text the proof file of `name` was proved about (between its BEGIN/END GENERATED markers)"""
+    t = open(os.path.join(vlib.COQ, THEOREMS[name]['proof'])).read()
+    m = re.search(r'\(\* BEGIN GENERATED %s[^\n]*\*\)\n(.*?)\(\* END GENERATED %s \*\)' % (name, name), t, re.S)
+    return m.group(1).replace('prog_%s_gen0' % name, 'prog_%s' % name) if m else None
+
+
 def levinson_reference_text():
-    """the program text Proofs/LoopIRLevinson.v was proved about (between its BEGIN/END markers)"""
-    t = open(os.path.join(vlib.COQ, LEV_PROOF)).read()
-    m = re.search(r'\(\* BEGIN GENERATED LEVINSON[^\n]*\*\)\n(.*?)\(\* END GENERATED LEVINSON \*\)', t, re.S)
-    return m.group(1).replace('prog_LEVINSON_gen0', 'prog_LEVINSON') if m else None
+    return reference_text('LEVINSON')
 
 
 TRUSTED_LINE = ("loop-IR tie: the translator tools/props/_loopir.py (Python ast -> IR, fail-closed) and the IR interpreter coq/Model/LoopIR.v "
@@ -1254,20 +1311,22 @@ def loopir_tie(ctx, names):
             return
     defs = ''.join(p.coq() + '\n' for p in progs.values())
     gen = GEN_HEADER + defs; thms = []
-    if 'LEVINSON' in progs:
+    for nm in [n for n in progs if n in THEOREMS]:
         # translation + theorem: applies only to the very program text the theorem was proved about
-        ref = levinson_reference_text()
-        same = ref is not None and ' '.join(ref.split()) == ' '.join(progs['LEVINSON'].coq().split())
-        info['LEVINSON']['theorem'] = ('applies: the regenerated program is the one %s is about (re-checked by reflexivity inside Coq)' % LEV_PROOF) if same else \
+        proof = THEOREMS[nm]['proof']
+        ref = reference_text(nm)
+        same = ref is not None and ' '.join(ref.split()) == ' '.join(progs[nm].coq().split())
+        info[nm]['theorem'] = ('applies: the regenerated program is the one %s is about (re-checked by reflexivity inside Coq)' % proof) if same else \
             'does not apply: the regenerated program text differs from the one proved about; the exact evaluation tie decides'
         if same:
-            vo = os.path.join(vlib.COQ, LEV_PROOF[:-2] + '.vo')
-            if not os.path.exists(vo) or os.path.getmtime(vo) < os.path.getmtime(os.path.join(vlib.COQ, LEV_PROOF)):
-                rc, log = vlib.make_cone(LEV_PROOF[:-2] + '.vo')
+            vo = os.path.join(vlib.COQ, proof[:-2] + '.vo')
+            if not os.path.exists(vo) or os.path.getmtime(vo) < os.path.getmtime(os.path.join(vlib.COQ, proof)):
+                rc, log = vlib.make_cone(proof[:-2] + '.vo')
                 if rc != 0:
-                    ctx.broken.append({'theorem': 'loopir: build of %s' % LEV_PROOF, 'where': LEV_PROOF, 'log': log[-1500:]}); same = False
+                    ctx.broken.append({'theorem': 'loopir: build of %s' % proof, 'where': proof, 'log': log[-1500:]}); same = False
         if same:
-            gen += LEV_BLOCK; thms = LEV_THEOREMS
+            gen += THEOREMS[nm]['block']; thms = thms + THEOREMS[nm]['theorems']
+            info[nm]['theorems_instantiated'] = THEOREMS[nm]['theorems']
     ok, _ = ctx.check_generated('LoopIR_%s' % ctx.pid, gen, thms)
     if not ok:
         if not thms:
